@@ -1635,6 +1635,14 @@ def do_train(w, d, op, p):
                 G = archs.gen_payload(tuple(o.shape), o.dtype, op.get("gseed", 1) + j, "noise", op.get("gmag", 1.0))
                 if op.get("noncontig") and G.ndim >= 2:
                     G = G.transpose(-1, -2).contiguous().transpose(-1, -2)
+                form = op.get("loss")
+                if form:
+                    # a scalar loss instead of an explicit upstream gradient: autograd then hands the module an
+                    # expanded (stride 0) gradient, a zero one, or one that depends on the output itself
+                    o32 = o.to(torch.float32)
+                    o = {"sum": lambda: o32.sum(), "mean": lambda: o32.mean(), "twice": lambda: o32.sum() + 0.5 * (o32 * o32).sum(), "zero": lambda: o32.sum() * 0.0, "last": lambda: o32[..., -1:].sum()}[form]()
+                    G = torch.ones((), dtype=o.dtype)
+                    w.probe("scalar_loss:" + form)
                 outs.append(o)
                 grads.append(G)
             torch.autograd.backward(outs, grads)
